@@ -227,3 +227,223 @@ VF_SUB(armor_negative, 4000, 80000) {
   if (t != TMCG_OPENPGP_ARMOR_UNKNOWN) ctx.fail("armor/decode/" + cls + "-accepted", "ArmorDecode returned type " + N(t) + " and " + N(back.size()) + " octets (reference parser: " + ra.why + ") for " + ctx.desc.str() + " armor: " + jstr(bad.substr(0, 400)));
   ctx.nontrivial(cls + N(ti) + N(L) + N(R::crc24(data)) + comment + N(lf) + N(bad.size()));
 }
+
+// ---------------------------------------------------------------------------
+// (3) packet tags and body lengths
+static const uint64_t LEN_BOUNDARIES[] = {0, 1, 2, 3, 100, 190, 191, 192, 193, 194, 255, 256, 257, 447, 448, 8382, 8383, 8384, 8385, 8386, 16319, 16320, 16383, 16384, 65534, 65535, 65536, 65537, 70000,
+  16777215ULL, 16777216ULL, 2147483647ULL, 2147483648ULL, 4294967294ULL, 4294967295ULL};
+static const size_t N_LENB = sizeof(LEN_BOUNDARIES) / sizeof(LEN_BOUNDARIES[0]);
+static void check_length_header(Ctx &ctx, uint64_t len) {
+  Bytes lib, ref = R::new_len(len); PGP::PacketLengthEncode((size_t)len, lib);
+  if (lib != ref) ctx.fail("length/encode/differs-from-reference", "length " + N(len) + ": library " + R::hex(lib) + " reference " + R::hex(ref));
+  Bytes in = ref; in.push_back(0xAB); uint32_t got = 0xDEADBEEF; bool part = true;
+  size_t used = PGP::PacketLengthDecode(in, true, 0, got, part);
+  if (used != ref.size() || got != (uint32_t)len || part) ctx.fail("length/decode/new-format-differs-from-reference", "header " + R::hex(ref) + " (length " + N(len) + "): library consumed " + N(used) + " octets, length " + N(got) + ", partial " + N(part));
+  Bytes five = R::new_len5(len); five.push_back(0xAB); got = 0; used = PGP::PacketLengthDecode(five, true, 0, got, part);
+  if (used != 5 || got != (uint32_t)len || part) ctx.fail("length/decode/five-octet-form-differs-from-reference", "length " + N(len) + ": consumed " + N(used) + " length " + N(got));
+  // old format length types
+  { Bytes o; unsigned lt; if (len < 256) { lt = 0; o.push_back((uint8_t)len); } else if (len < 65536) { lt = 1; R::put16(o, (uint32_t)len); } else { lt = 2; R::put32(o, len); }
+    size_t want = o.size(); o.push_back(0xCD); got = 0; used = PGP::PacketLengthDecode(o, false, lt, got, part);
+    if (used != want || got != (uint32_t)len || part) ctx.fail("length/decode/old-format-differs-from-reference", "length " + N(len) + " length type " + N(lt) + ": consumed " + N(used) + " length " + N(got)); }
+}
+// a complete packet with a body of exactly `len` octets through encoder, reference and decoder
+static void check_whole_packet(Ctx &ctx, unsigned tag, const Bytes &payload) {
+  Bytes lib, body; std::string name;
+  switch (tag) {
+    case 13: name = "uid"; body = payload; PGP::PacketUidEncode(std::string(payload.begin(), payload.end()), lib); break;
+    case 9: name = "sed"; body = payload; PGP::PacketSedEncode(payload, lib); break;
+    case 18: name = "seipd"; body = R::seipd_body(payload); PGP::PacketSeipdEncode(payload, lib); break;
+    default: name = "literal"; tag = 11; set_vnow((long)(payload.size() % 100000)); body = R::literal_body(0x62, "", (uint32_t)(1790000000UL + payload.size() % 100000), payload); PGP::PacketLitEncode(payload, lib); break;
+  }
+  Bytes ref = R::packet(tag, body);
+  if (!same(ctx, "packet/" + name + "/encode-differs-from-reference", name + " packet with body of " + N(body.size()) + " octets", lib, ref)) return;
+  bool decodable = !(payload.empty() && tag != 13);
+  if (!decodable) return;
+  Bytes trailer = R::packet(13, Bytes(1, 'x')), in = R::cat(lib, trailer);
+  Dec d(in);
+  if (d.ret != tag) { ctx.fail("packet/" + name + "/own-packet-not-decoded", "PacketDecode returned " + N(d.ret) + " for a " + name + " packet with body of " + N(body.size()) + " octets, header " + R::hex(Bytes(lib.begin(), lib.begin() + std::min<size_t>(6, lib.size())))); return; }
+  Bytes got;
+  if (tag == 13) got = arr(d.c.uiddata, d.c.uiddatalen); else if (tag == 11) got = arr(d.c.data, d.c.datalen); else got = arr(d.c.encdata, d.c.encdatalen);
+  same(ctx, "packet/" + name + "/decoded-content-differs", name + " content after decode", got, payload);
+  if (tag == 11 && (d.c.dataformat != 0x62 || d.c.datafilenamelen != 0 || d.c.datatime != (uint32_t)(1790000000UL + payload.size() % 100000))) ctx.fail("packet/literal/decoded-fields-differ", "format " + N(d.c.dataformat) + " name length " + N(d.c.datafilenamelen) + " time " + N(d.c.datatime));
+  if (tag == 18 && d.c.version != 1) ctx.fail("packet/seipd/decoded-fields-differ", "version " + N(d.c.version));
+  if (!d.c.newformat || d.c.tag != tag) ctx.fail("packet/" + name + "/decoded-header-differs", "newformat " + N(d.c.newformat) + " tag " + N(d.c.tag));
+  same(ctx, "packet/decode/current-packet-differs", "current_packet", d.cur, lib);
+  same(ctx, "packet/decode/consumed-too-much-or-too-little", "remaining input", d.rest, trailer);
+  Bytes ex; unsigned t = PGP::PacketBodyExtract(lib, 0, ex);
+  if (t != tag || ex != body) ctx.fail("packet/body-extract/differs-from-reference", name + " body " + N(body.size()) + " octets: returned tag " + N(t) + ", " + N(ex.size()) + " octets");
+}
+VF_ENUM(packet_lengths, 38, 38) { // index < 35: one boundary length; 35: every length 0..9000; 36: every tag; 37: partial headers
+  size_t i = ctx.c.raw();
+  if (i < N_LENB) {
+    uint64_t len = LEN_BOUNDARIES[i]; check_length_header(ctx, len);
+    ctx.desc << "body length " << len; ctx.nontrivial("len" + N(len));
+    if (len <= 70000) { // whole packets whose BODY has exactly this length
+      static const unsigned tags[] = {13, 9, 18, 11};
+      for (unsigned t : tags) { size_t overhead = t == 18 ? 1 : (t == 11 ? 6 : 0); if (len < overhead) continue; check_whole_packet(ctx, t, content(ctx, (size_t)len - overhead)); }
+      ctx.label("boundary length with whole packets"); ctx.desc << " (uid, sed, seipd, literal packets)";
+    } else ctx.label("boundary length, header only");
+    ctx.label(len <= 191 ? "one-octet form" : (len <= 8383 ? "two-octet form" : "five-octet form"));
+  } else if (i == N_LENB) {
+    for (uint64_t len = 0; len <= 9000 && !ctx.failed; len++) check_length_header(ctx, len);
+    ctx.count("lengths_checked", 9001); ctx.label("exhaustive: every length 0..9000 (header)"); ctx.desc << "all lengths 0..9000"; ctx.nontrivial("sweep");
+  } else if (i == N_LENB + 1) {
+    for (unsigned t = 0; t < 64; t++) { Bytes o; PGP::PacketTagEncode(t, o); if (o.size() != 1 || o[0] != R::new_tag(t)) ctx.fail("tag/encode/differs-from-reference", "tag " + N(t) + ": library " + R::hex(o)); }
+    ctx.label("exhaustive: every packet tag 0..63"); ctx.desc << "all tags"; ctx.nontrivial("tags");
+  } else {
+    for (unsigned e = 0; e <= 30; e++) { Bytes in; in.push_back(224 + e); in.push_back(0); uint32_t got = 0; bool part = false; size_t used = PGP::PacketLengthDecode(in, true, 0, got, part);
+      if (used != 1 || !part || got != (1u << e)) ctx.fail("length/decode/partial-header-differs-from-reference", "octet " + N(224 + e) + ": consumed " + N(used) + " length " + N(got) + " partial " + N(part)); }
+    ctx.label("exhaustive: every partial body length header"); ctx.desc << "partial headers 224..254"; ctx.nontrivial("partial");
+  }
+}
+// reference-built packets in every length form the RFC allows, decoded by the library
+VF_SUB(packet_forms_decode, 3000, 60000) {
+  static const unsigned tags[] = {8, 9, 11, 13, 17, 18, 20};
+  unsigned tag = tags[ctx.c.index(7)]; size_t L;
+  switch (ctx.c.weighted({4, 3, 2, 1})) { case 0: L = (size_t)ctx.c.range(1, 300); break; case 1: { static const size_t b[] = {191, 192, 255, 256, 512, 8383, 8384, 65535, 65536}; L = b[ctx.c.index(9)] + (size_t)ctx.c.range(0, 4) - 2; break; }
+    case 2: L = (size_t)ctx.c.small(300, 20000); break; default: L = (size_t)ctx.c.small(20000, 70000); break; }
+  std::string cc; Bytes payload = content(ctx, L, &cc), body; std::string fname; unsigned fmt = 0x62, comp = 0, sym = 0, aead = 0, chunk = 0; uint32_t date = 0; Bytes iv;
+  switch (tag) {
+    case 8: comp = (unsigned)ctx.c.index(4); body.push_back(comp); R::put(body, payload); break;
+    case 11: { static const unsigned f[] = {0x62, 0x74, 0x75}; fmt = f[ctx.c.index(3)]; fname = ctx.c.coin() ? "" : (ctx.c.coin() ? "_CONSOLE" : text(ctx, (size_t)ctx.c.range(1, 255))); date = ctx.c.raw(); body = R::literal_body(fmt, fname, date, payload); break; }
+    case 17: if (payload.size() < 2) payload.resize(2, 1); body = payload; break;
+    case 18: body = R::seipd_body(payload); break;
+    case 20: { static const unsigned s[] = {7, 8, 9, 10, 11, 13}; sym = s[ctx.c.index(6)]; aead = 1 + (unsigned)ctx.c.index(2); chunk = (unsigned)ctx.c.range(0, 56); iv = content(ctx, aead == 1 ? 16 : 15); body = R::aead_body(sym, aead, chunk, iv, payload); break; }
+    default: body = payload; break;
+  }
+  // length form
+  Bytes pkt; std::string form; bool last = false, newfmt = true; bool can_old = tag < 16, can_partial = (tag == 8 || tag == 9 || tag == 11 || tag == 18) && body.size() >= 512;
+  size_t f = ctx.c.weighted({3, 2, (unsigned)(can_old ? 3 : 0), (unsigned)(can_old ? 1 : 0), (unsigned)(can_partial ? 4 : 0)});
+  if (f == 0) { form = "new, minimal"; pkt = R::packet(tag, body); }
+  else if (f == 1) { form = "new, five-octet"; pkt = R::packet_len5(tag, body); }
+  else if (f == 2) { unsigned lt = body.size() < 256 ? (unsigned)ctx.c.index(3) : (body.size() < 65536 ? 1 + (unsigned)ctx.c.index(2) : 2); form = "old, length type " + N(lt); newfmt = false; pkt = R::old_packet(tag, body, lt); }
+  else if (f == 3) { form = "old, indeterminate"; newfmt = false; last = true; pkt = R::old_packet(tag, body, 3); }
+  else { form = "partial body lengths"; std::vector<unsigned> ex; size_t left = body.size(); unsigned maxe = 0; while (((size_t)2 << maxe) <= left && maxe < 16) maxe++;
+    unsigned e0 = (unsigned)ctx.c.range(9, maxe < 9 ? 9 : maxe); ex.push_back(e0); left -= (size_t)1 << e0; unsigned n = (unsigned)ctx.c.range(0, 6);
+    for (unsigned k = 0; k < n && left; k++) { unsigned me = 0; while (((size_t)2 << me) <= left) me++; unsigned e = (unsigned)ctx.c.range(0, me); ex.push_back(e); left -= (size_t)1 << e; }
+    pkt = R::partial_packet(tag, body, ex); form += " (" + N(ex.size()) + " partial chunks, final " + N(left) + ")"; ctx.label(left == 0 ? "partial: empty final chunk" : "partial: non-empty final chunk"); }
+  Bytes trailer = last ? Bytes() : R::packet(13, Bytes(1, 'x'));
+  ctx.desc << "tag " << tag << ", body " << body.size() << " octets (" << cc << "), " << form; ctx.label("tag " + N(tag)); ctx.label("form: " + form.substr(0, form.find(" (")));
+  Dec d(R::cat(pkt, trailer));
+  if (d.ret != tag) { ctx.fail("packet/decode/valid-reference-packet-refused", "PacketDecode returned " + N(d.ret) + " for " + ctx.desc.str() + " header " + R::hex(Bytes(pkt.begin(), pkt.begin() + std::min<size_t>(8, pkt.size())))); return; }
+  if (d.c.tag != tag || d.c.newformat != newfmt || d.c.indetlen != last) ctx.fail("packet/decode/header-fields-differ", "tag " + N(d.c.tag) + " newformat " + N(d.c.newformat) + " indeterminate " + N(d.c.indetlen) + " for " + ctx.desc.str());
+  Bytes got; std::string fields;
+  switch (tag) {
+    case 8: got = arr(d.c.compdata, d.c.compdatalen); if (d.c.compalgo != (int)comp) fields = "compression algorithm " + N(d.c.compalgo); break;
+    case 9: got = arr(d.c.encdata, d.c.encdatalen); break;
+    case 11: got = arr(d.c.data, d.c.datalen); if (d.c.dataformat != fmt || d.c.datatime != date || std::string((const char *)d.c.datafilename, d.c.datafilenamelen) != fname) fields = "format " + N(d.c.dataformat) + " date " + N(d.c.datatime) + " file name length " + N(d.c.datafilenamelen); break;
+    case 13: got = arr(d.c.uiddata, d.c.uiddatalen); break;
+    case 17: got = arr(d.c.uatdata, d.c.uatdatalen); break;
+    case 18: got = arr(d.c.encdata, d.c.encdatalen); if (d.c.version != 1) fields = "version " + N(d.c.version); break;
+    default: got = arr(d.c.encdata, d.c.encdatalen); if (d.c.version != 1 || d.c.skalgo != (int)sym || d.c.aeadalgo != (int)aead || d.c.chunksize != chunk || arr(d.c.iv, iv.size()) != iv) fields = "version " + N(d.c.version) + " cipher " + N(d.c.skalgo) + " aead " + N(d.c.aeadalgo) + " chunk " + N(d.c.chunksize); break;
+  }
+  same(ctx, "packet/decode/content-differs-from-reference-input", "content of tag " + N(tag), got, payload);
+  if (!fields.empty()) ctx.fail("packet/decode/fields-differ-from-reference-input", fields + " for " + ctx.desc.str());
+  same(ctx, "packet/decode/current-packet-differs", "current_packet", d.cur, pkt);
+  same(ctx, "packet/decode/consumed-too-much-or-too-little", "remaining input", d.rest, trailer);
+  Bytes ex; unsigned t = PGP::PacketBodyExtract(pkt, 0, ex);
+  if (t != tag || ex != body) ctx.fail("packet/body-extract/differs-from-reference", ctx.desc.str() + ": returned tag " + N(t) + ", " + N(ex.size()) + " octets");
+  ctx.nontrivial(N(tag) + form + N(body.size()) + N(R::crc24(body)));
+}
+
+// ---------------------------------------------------------------------------
+// (4) multiprecision integers
+static void check_mpi(Ctx &ctx, const Z &v, bool secure_too) {
+  Mpi g(v); Bytes ref = R::mpi(v), lib; size_t sum = 7;
+  PGP::PacketMPIEncode(g, lib, sum);
+  if (lib != ref) ctx.fail("mpi/encode/differs-from-reference", "value " + S(v) + ": library " + R::hex(lib) + " reference " + R::hex(ref));
+  if (sum != ((7 + R::sum16(ref)) & 0xFFFF)) ctx.fail("mpi/encode/checksum-differs", "value " + S(v) + ": sum " + N(sum));
+  Bytes in = ref; in.push_back(0x5A); in.push_back(0xA5);
+  gcry_mpi_t out = NULL; size_t sum2 = 0; size_t used = PGP::PacketMPIDecode(in, out, sum2);
+  if (used != ref.size() || fromG(out) != v) ctx.fail("mpi/decode/differs-from-reference", "encoding " + R::hex(ref) + ": consumed " + N(used) + ", value " + S(fromG(out)));
+  else if (sum2 != R::sum16(ref)) ctx.fail("mpi/decode/checksum-differs", "encoding " + R::hex(ref) + ": sum " + N(sum2));
+  gcry_mpi_release(out);
+  if (secure_too) {
+    tmcg_openpgp_secure_octets_t so; size_t s3 = 0; PGP::PacketMPIEncode(g, so, s3); Bytes sb(so.begin(), so.end());
+    if (sb != ref || s3 != R::sum16(ref)) ctx.fail("mpi/encode-secure/differs-from-reference", "value " + S(v) + ": library " + R::hex(sb) + " reference " + R::hex(ref));
+    if (v == 0) return; // the secure-memory decoder refuses the zero MPI it encodes: judged once in edge_cases
+    gcry_mpi_t o2 = gcry_mpi_new(8); size_t s4 = 0; size_t u2 = PGP::PacketMPIDecode(so, o2, s4);
+    if (u2 != ref.size() || fromG(o2) != v || s4 != R::sum16(ref)) ctx.fail("mpi/decode-secure/differs-from-reference", "encoding " + R::hex(ref) + ": consumed " + N(u2));
+    gcry_mpi_release(o2);
+  }
+}
+VF_ENUM(mpi_small_integers, 18, 18) { // index k: every integer in [4096k, 4096(k+1)); 17: 2^n-1, 2^n, 2^n+1 for n <= 4200
+  size_t k = ctx.c.raw();
+  if (k < 17) { for (unsigned long v = 4096 * k; v < 4096 * (k + 1) && !ctx.failed; v++) check_mpi(ctx, Z(v), v % 64 == 0); ctx.count("integers_checked", 4096); ctx.label("exhaustive: every integer 0..69631"); ctx.desc << "integers " << 4096 * k << ".." << 4096 * (k + 1) - 1; }
+  else { for (unsigned n = 0; n <= 4200 && !ctx.failed; n++) { Z p = Z(1) << n; check_mpi(ctx, p - 1, false); check_mpi(ctx, p, n % 16 == 0); check_mpi(ctx, p + 1, false); } ctx.count("integers_checked", 3 * 4201); ctx.label("exhaustive: 2^n-1, 2^n, 2^n+1 for n <= 4200"); ctx.desc << "powers of two and neighbours"; }
+  ctx.nontrivial("k" + N(k));
+}
+VF_SUB(mpi_codec, 4000, 80000) {
+  std::string cls; Z v = gen_int(ctx, ctx.thorough ? 16384 : 8192, &cls); size_t bits = R::zbits(v);
+  ctx.desc << cls << ", " << bits << " bits: " << S(v); ctx.label(cls); ctx.label("bit length mod 8 = " + N(bits % 8));
+  check_mpi(ctx, v, bits <= 4096);
+  // non-canonical input: the declared bit count covers leading zero bits / octets; the decoder must consume
+  // ceil(bits/8) octets and deliver the numeric value
+  unsigned extra = (unsigned)ctx.c.range(1, 40); size_t dbits = bits + extra; if (dbits <= 65535) {
+    Bytes mag = R::be_octets(v), in; R::put16(in, (uint32_t)dbits); size_t n = (dbits + 7) / 8; in.insert(in.end(), n - mag.size(), 0); R::put(in, mag); size_t want = in.size(); in.push_back(0x77);
+    gcry_mpi_t out = NULL; size_t used = PGP::PacketMPIDecode(in, out);
+    if (used != want || fromG(out) != v) ctx.fail("mpi/decode/leading-zero-form-differs-from-reference", "encoding " + R::hex(in) + ": consumed " + N(used) + " (expected " + N(want) + "), value " + S(fromG(out)) + " expected " + S(v));
+    if (out) { Bytes re; PGP::PacketMPIEncode(out, re); if (re != R::mpi(v)) ctx.fail("mpi/encode/not-canonical-after-decode", "re-encoded " + R::hex(re)); }
+    gcry_mpi_release(out); ctx.label(n > mag.size() ? "decode: leading zero octets" : "decode: leading zero bits only");
+  }
+  if (cls != "random" || bits > 2048) ctx.nontrivial(cls + v.get_str(62));
+}
+
+// ---------------------------------------------------------------------------
+// (5) string-to-key
+static const unsigned S2K_HASHES[] = {2, 8, 9, 10, 1, 3, 11, 12, 14}; // SHA-1, SHA-256, SHA-384, SHA-512, MD5, RIPEMD-160, SHA-224, SHA3-256, SHA3-512
+static const char *hash_name(unsigned h) { switch (h) { case 1: return "MD5"; case 2: return "SHA-1"; case 3: return "RIPEMD-160"; case 8: return "SHA-256"; case 9: return "SHA-384"; case 10: return "SHA-512"; case 11: return "SHA-224"; case 12: return "SHA3-256"; case 14: return "SHA3-512"; } return "?"; }
+static void check_s2k(Ctx &ctx, unsigned hash, bool iterated, unsigned c, const Bytes &salt, const std::string &pass, size_t keylen) {
+  tmcg_openpgp_secure_octets_t out; PGP::S2KCompute((tmcg_openpgp_hashalgo_t)hash, keylen, sec(pass), salt, iterated, (tmcg_openpgp_byte_t)c, out);
+  Bytes lib(out.begin(), out.end()), ref = R::s2k(hash, iterated ? 3 : 1, salt, c, pass, keylen);
+  if (lib != ref) ctx.fail(std::string("s2k/") + (iterated ? "iterated" : "salted") + "/differs-from-reference",
+    std::string(hash_name(hash)) + " count octet " + N(c) + " (" + N(R::s2k_count(c)) + " octets) key length " + N(keylen) + " salt " + R::hex(salt) + " passphrase (" + N(pass.size()) + " chars) " + jstr(pass.substr(0, 40)) + ": library " + R::hex(lib) + " reference " + R::hex(ref));
+}
+static unsigned bitrev8(unsigned x) { unsigned r = 0; for (int i = 0; i < 8; i++) if (x & (1u << i)) r |= 0x80u >> i; return r; }
+VF_ENUM(s2k_all_count_octets, 1024, 2304) { // index = hash (4 quick / 9 thorough) x count octet (all 256, bit-reversed order to spread the cost)
+  size_t i = ctx.c.raw(); unsigned hash = S2K_HASHES[i / 256], c = bitrev8((unsigned)(i % 256));
+  size_t dlen = gcry_md_get_algo_dlen(R::gcry_hash_id(hash)); size_t keylen = (size_t)ctx.c.range(1, 64);
+  if (c >= 0xD0 && keylen >= dlen) keylen = (size_t)ctx.c.range(1, dlen - 1); // one hash instance (plus the library's spare one) for the expensive counts
+  Bytes salt = content(ctx, 8); std::string pass = text(ctx, (size_t)ctx.c.range(0, 40), true);
+  ctx.desc << hash_name(hash) << ", count octet " << c << " = " << R::s2k_count(c) << " octets, key length " << keylen << ", passphrase " << pass.size() << " chars";
+  ctx.label(hash_name(hash)); ctx.label("count exponent " + N(c >> 4)); ctx.label(keylen > dlen ? "key longer than digest" : (keylen == dlen ? "key = digest length" : "key shorter than digest"));
+  check_s2k(ctx, hash, true, c, salt, pass, keylen); ctx.nontrivial(N(hash) + "/" + N(c));
+}
+VF_SUB(s2k_sampled, 4000, 80000) {
+  unsigned hash = S2K_HASHES[ctx.c.index(9)]; bool iterated = ctx.c.prob(2, 3); size_t keylen = (size_t)ctx.c.range(1, 64); size_t dlen = gcry_md_get_algo_dlen(R::gcry_hash_id(hash));
+  if (ctx.c.prob(1, 4)) { size_t m = (size_t)ctx.c.range(1, 64 / dlen ? 64 / dlen : 1) * dlen; keylen = m + (size_t)ctx.c.range(0, 2) - 1; if (keylen < 1) keylen = 1; if (keylen > 64) keylen = 64; }
+  unsigned c; std::string pcls; std::string pass;
+  switch (ctx.c.weighted({4, 2, 1, 1})) {
+    case 0: pcls = "short passphrase"; pass = text(ctx, (size_t)ctx.c.range(0, 64), true); c = (unsigned)ctx.c.range(0, 0x7F); break;
+    case 1: pcls = "empty passphrase"; c = (unsigned)ctx.c.range(0, 0x9F); break;
+    case 2: { pcls = "passphrase longer than the count"; c = (unsigned)ctx.c.range(0, 15); size_t n = R::s2k_count(c) - 8 + (size_t)ctx.c.range(0, 900) - 2; pass = std::string(n, 'p'); for (size_t k = 0; k < n; k += 7) pass[k] = (char)('a' + (k / 7) % 26); break; }
+    default: pcls = "binary passphrase"; { Bytes b = content(ctx, (size_t)ctx.c.range(1, 200)); pass.assign(b.begin(), b.end()); } c = (unsigned)ctx.c.small(0, 0xBF); break;
+  }
+  Bytes salt = content(ctx, 8);
+  ctx.desc << hash_name(hash) << (iterated ? ", iterated+salted, count octet " + N(c) : std::string(", salted")) << ", key length " << keylen << ", " << pcls << " (" << pass.size() << ")";
+  ctx.label(hash_name(hash)); ctx.label(iterated ? "iterated+salted" : "salted"); ctx.label(pcls); ctx.label(keylen > dlen ? "key longer than digest" : (keylen == dlen ? "key = digest length" : "key shorter than digest"));
+  check_s2k(ctx, hash, iterated, c, salt, pass, keylen);
+  if (ctx.c.prob(1, 16)) { // documented: nothing is derived unless the salt has 8 octets
+    Bytes bad = content(ctx, ctx.c.coin() ? 7 : 9); tmcg_openpgp_secure_octets_t out; PGP::S2KCompute((tmcg_openpgp_hashalgo_t)hash, keylen, sec(pass), bad, iterated, (tmcg_openpgp_byte_t)c, out);
+    if (!out.empty()) ctx.fail("s2k/salt-of-wrong-size-accepted", "salt of " + N(bad.size()) + " octets produced " + N(out.size()) + " key octets"); ctx.label("salt of wrong size refused");
+  }
+  ctx.nontrivial(N(hash) + N(iterated) + N(c) + N(keylen) + pass.substr(0, 64) + R::hex(salt));
+}
+
+// ---------------------------------------------------------------------------
+// (6) fingerprints and key identifiers
+VF_SUB(fingerprint_keyid, 3000, 60000) {
+  size_t L; std::string lc;
+  switch (ctx.c.weighted({4, 3, 2, 1})) { case 0: L = (size_t)ctx.c.range(6, 600); lc = "6..600"; break; case 1: { static const size_t b[] = {255, 256, 257, 511, 512, 65279, 65280, 65535}; L = b[ctx.c.index(8)]; lc = "length octet boundary"; break; }
+    case 2: L = (size_t)ctx.c.small(600, 65535); lc = "600..65535"; break; default: L = (size_t)ctx.c.range(0, 5); lc = "0..5"; break; }
+  std::string cc; Bytes body = content(ctx, L, &cc); if (L >= 6 && ctx.c.coin()) { body[0] = 4; body[5] = 17; }
+  ctx.desc << "key packet body of " << L << " octets (" << cc << ")"; ctx.label("length " + lc);
+  Bytes f4, k4, f5, k5; PGP::FingerprintCompute(body, f4); PGP::KeyidCompute(body, k4); PGP::FingerprintComputeV5(body, f5); PGP::KeyidComputeV5(body, k5);
+  same(ctx, "fingerprint/v4/differs-from-reference", "v4 fingerprint", f4, R::fingerprint_v4(body));
+  same(ctx, "keyid/v4/differs-from-reference", "v4 key id", k4, R::keyid_v4(body));
+  same(ctx, "fingerprint/v5/differs-from-reference", "v5 fingerprint", f5, R::fingerprint_v5(body));
+  same(ctx, "keyid/v5/differs-from-reference", "v5 key id", k5, R::keyid_v5(body));
+  std::string hx, want; PGP::FingerprintConvertPlain(f4, hx); for (uint8_t b : f4) { char t[3]; snprintf(t, 3, "%02X", b); want += t; }
+  if (hx != want) ctx.fail("fingerprint/convert-plain/not-upper-case-hex", hx + " vs " + want);
+  ctx.nontrivial(N(L) + R::hex(f4));
+}
